@@ -14,7 +14,7 @@ On break: harness `oracle` evaluates the property directly on the real code with
 import os
 
 THEOREMS = ["IstioModel.C10.Theorems"]
-STREAMS = ("compose",)
+STREAMS = ("compose", "ambient")
 
 
 def case_of(lines, i):
